@@ -15,9 +15,10 @@ EXPLANATION = (
     "inside the group loop other than after exhaustion); every other exit is Err(InvalidShares) or the propagated extraction error. C11.3: "
     "the collector reads the 'sskrShare' objects of every input envelope as SSKRShare and groups them by share.identifier() and nothing "
     "else (every collected share is kept in its identifier group). C11.6: the decrypt_subject instances of C08 re-evaluated here (the join opens the first share envelope with it). C11.7: the split functions have no refusal of their own. Does not decide 'iff the subset satisfies the policy': that is the sskr "
-    "crate's combinatorics.")
+    "crate's combinatorics."
+    " C11.8: sskr_split = sskr_split_using(.., fresh SecureRandomNumberGenerator).")
 TRUSTED = ['sskr_generate_using / sskr_combine implement SSKR; SSKRShare::identifier is the split identifier']
-FLOORS = {'C11.1': 3, 'C11.2': 4, 'C11.3': 3, 'C11.6': 3, 'C11.7': 3}
+FLOORS = {'C11.1': 3, 'C11.2': 4, 'C11.3': 3, 'C11.6': 3, 'C11.7': 3, 'C11.8': 1}
 P1, P2, P3, P4 = [('param', i) for i in range(1, 5)]
 
 
@@ -299,3 +300,21 @@ def check(ctx):
                      key='C11.7|' + name)
         else:
             ctx.ok('C11.7', ctx.site(b), '%s has no refusal of its own (errors only through `?` of the secret / share generation)' % name)
+    # C11.8: the public split draws the share randomness (incl. the 16-bit split identifier) from a fresh SecureRandomNumberGenerator:
+    # sskr_split = sskr_split_using(self, spec, key, &mut SecureRandomNumberGenerator). A fixed / test generator gives every split the
+    # same identifier, so shares of different splits fall into one group and a quorum mixed with a stray share no longer joins.
+    b = F.method1('Envelope', 'sskr_split')
+    if b is None:
+        ctx.lost('C11.8', 'Envelope::sskr_split')
+    else:
+        tb = TermBuilder(F, b)
+        calls = [(bi, tb.call_args(bi)) for bi, c, t in b.calls() if c is not None and c.name == 'sskr_split_using']
+        def secure(t):
+            t = strip_sites(detry(t))
+            while t[0] in ('ref', 'deref') and len(t) > 1 and isinstance(t[1], tuple):
+                t = strip_sites(t[1])
+            return t[0] == 'agg' and t[1].endswith('SecureRandomNumberGenerator')
+        if len(calls) == 1 and len(calls[0][1]) == 4 and strip_sites(calls[0][1][0]) == ('param', 1) and secure(calls[0][1][3]):
+            ctx.ok('C11.8', ctx.site(b, calls[0][0]), 'sskr_split = sskr_split_using(self, spec, key, fresh SecureRandomNumberGenerator)')
+        else:
+            ctx.fail('C11.8', ctx.site(b), 'sskr_split does not split with a fresh SecureRandomNumberGenerator: %s' % [[fmt(strip_sites(a))[:80] for a in c_[1]] for c_ in calls], key='C11.8|rng')
